@@ -43,16 +43,23 @@ def validate(spec_dir, module, traces, constants, *, timeout=1800, explain=3, in
     rejected = dict(inv_failed)
     traces_live = set(live)
     todo = [i for i in range(1, len(traces) + 1) if i not in accepted and i in traces_live]
-    for i in todo[:explain]:
+    # every rejected trace is explained (one TLC run per chunk, progress printed per trace id): `explain` only
+    # bounds the work on trees where hundreds of traces are rejected
+    exp = todo if explain else []
+    exp = exp[:max(explain, 60)]
+    for c in range(0, len(exp), 30):
+      chunk = exp[c:c + 30]
       with open(path, 'w') as f:
-        json.dump([traces[i - 1]], f)
+        json.dump([traces[i - 1] for i in chunk], f)
       cfg1 = tlc.cfg_text(spec='TSpec', constants=constants, invariants=['Progress'], deadlock=False)
       r1 = tlc.run(spec_dir, module, cfg1, workers=1, timeout=timeout, env={'TRACE_FILE': path})
-      reached = max([p[2] for p in r1.prints if isinstance(p, list) and p and p[0] == 'P'] or [1])
-      ev = traces[i - 1][reached - 1] if reached - 1 < len(traces[i - 1]) else None
-      rejected[i] = dict(line=reached, event=ev, prefix=traces[i - 1][max(0, reached - 6):reached - 1])
-    for i in todo[explain:]:
-      rejected[i] = dict(line=None, event=None)
+      for k, i in enumerate(chunk, 1):
+        reached = max([p[2] for p in r1.prints if isinstance(p, list) and len(p) > 2 and p[0] == 'P' and p[1] == k] or [1])
+        ev = traces[i - 1][reached - 1] if reached - 1 < len(traces[i - 1]) else None
+        rejected[i] = dict(line=reached, event=ev, prefix=traces[i - 1][max(0, reached - 6):reached - 1])
+    for i in todo:
+      if i not in rejected:
+        rejected[i] = dict(line=None, event=None)
     return accepted, rejected, res
   finally:
     shutil.rmtree(scratch, ignore_errors=True)
